@@ -16,10 +16,15 @@ Record inline_vec := { iv_size : Z; iv_entries : list (Z * T S) }.
 Inductive mref :=
 | MInline (m : inline_mat)
 | MStored (id : nat)
-| MOther.                         (* objectstorage (disabled / unreachable here) or an unknown scheme *)
+| MObject (o : option (nat * list (nat * nat * T S))).
+    (* an objectstorage reference: what the server-side CSV loader made of the object (size and
+       coordinate list; Model/Csv.v [load_csv_mat]), [None] when it refused it, when file references
+       are disabled, or for an unknown scheme *)
 Inductive vref :=
 | VInline (v : inline_vec)
-| VOther.
+| VObject (o : option (nat * list entry)).
+Notation MOther := (MObject None).
+Notation VOther := (VObject None).
 
 (** loadInlineTrustMatrix: size > 0, every index in [0, size) *)
 Definition load_inline_mat (m : inline_mat) : option (csm S) :=
@@ -48,10 +53,10 @@ Definition load_mat (st : store) (r : mref) : option (csm S) :=
   match r with
   | MInline m => load_inline_mat m
   | MStored id => st_get st id         (* a disposable deep copy: the functional model copies by construction *)
-  | MOther => None
+  | MObject o => option_map (fun p => new_csr (fst p) (fst p) (snd p) false) o
   end.
 Definition load_vec (r : vref) : option (vec S) :=
-  match r with VInline v => load_inline_vec v | VOther => None end.
+  match r with VInline v => load_inline_vec v | VObject o => option_map (fun p => new_vec (fst p) (snd p)) o end.
 
 (** ** POST /compute, /compute-with-stats *)
 Record request := {
